@@ -12,7 +12,7 @@ from collections import deque
 
 from pymtl3.datatypes import Bits, Bits1, is_bitstruct_class, mk_bits
 
-from .errors import InvalidConnectionError
+from .errors import InvalidConnectionError, InvalidPlaceholderError
 from .NamedObject import DSLMetadata, NamedObject
 from .Placeholder import Placeholder
 
@@ -91,8 +91,8 @@ def _connect_check( o1, o2, internal ):
                                  "- Please use top.add_connection(...) API.")
 
   if isinstance( host, Placeholder ):
-    raise InvalidPlaceholderError( "Cannot call connect {}"
-          "in a placeholder component.".format( blk.__name__ ) )
+    raise InvalidPlaceholderError( f"Cannot call connect ({o1!r} and {o2!r}) "
+          f"in the placeholder component {host!r}." )
 
   # Not sure if there is any case where we cannot get the top plus it's
   # not an internal connect call
